@@ -121,12 +121,30 @@ def extract_tables(repo, verif):
             found[n.targets[0].id] = _table_term(n.value)
     if set(found) != {"ui_validations", "base_validations"}:
         raise Refuse("constants.py: ui_validations / base_validations literal not found")
+    # forms.py :: MemberKeys.camel_to_snake (dict literal of strings)
+    ftree = ast.parse((Path(repo) / "geoh5py/ui_json/forms.py").read_text())
+    pairs = None
+    for n in ast.walk(ftree):
+        if isinstance(n, ast.ClassDef) and n.name == "MemberKeys":
+            for b in n.body:
+                tgt = b.target if isinstance(b, ast.AnnAssign) else (b.targets[0] if isinstance(b, ast.Assign) else None)
+                if isinstance(tgt, ast.Name) and tgt.id == "camel_to_snake" and isinstance(b.value, ast.Dict):
+                    pairs = []
+                    for k, v in zip(b.value.keys, b.value.values):
+                        if not (isinstance(k, ast.Constant) and isinstance(k.value, str) and isinstance(v, ast.Constant) and isinstance(v.value, str)):
+                            raise Refuse("MemberKeys.camel_to_snake: non-string entry")
+                        pairs.append((k.value, v.value))
+    if pairs is None:
+        raise Refuse("forms.py: MemberKeys.camel_to_snake literal not found")
+    camel = "[" + "; ".join(f'("{a}", "{b}")' for a, b in pairs) + "]"
     text = ("(* GENERATED by tools/pylite/units.py from geoh5py/ui_json/constants.py - do not edit. *)\n"
             "From Coq Require Import String.\nFrom GV Require Import Prelude.Base Model.PyVal.\nLocal Open Scope string_scope.\n\n"
             f"Definition ui_validations_table : pv :=\n  {found['ui_validations']}.\n\n"
-            f"Definition base_validations_table : pv :=\n  {found['base_validations']}.\n")
+            f"Definition base_validations_table : pv :=\n  {found['base_validations']}.\n\n"
+            "(* geoh5py/ui_json/forms.py :: MemberKeys.camel_to_snake *)\n"
+            f"Definition camel_to_snake_table : list (string * string) :=\n  {camel}.\n")
     write_if_changed(Path(verif) / "coq" / "generated" / "Table_UiValidations.v", text)
-    return {"Table_UiValidations.v": 2}
+    return {"Table_UiValidations.v": 3}
 
 
 def regenerate_all(repo, verif, only=None):
